@@ -110,12 +110,19 @@ type efState struct {
 	visitedV  map[ssa.Value]bool
 	notes     map[string]bool
 	sums      map[*ssa.Function]*bsum
+	fv        *funcVals                // enumeration of calls through function values (funcvals.go)
+	fldLoads  map[fieldKey][]*ssa.UnOp // loads of struct fields, by (type, field)
+	puse      map[puseKey]int          // paramUsed memo: 0 unknown, 1 in progress, 2 no, 3 yes
+	kres      map[funKey]*keptRes      // keptResult memo
+	feedsAPI  map[*EFNode]bool         // nodes whose values can arrive at an entry point
 }
 
 func errFlow(prog *ssa.Program, cg *callgraph.Graph, byPath map[string]*packages.Package, outJSON string) {
 	s := &efState{prog: prog, cg: cg, scope: map[*ssa.Package]string{}, byKey: map[interface{}]*EFNode{},
 		cellStore: map[ssa.Value][]ssa.Value{}, fldStore: map[fieldKey][]ssa.Value{}, bind: map[*ssa.FreeVar]ssa.Value{},
-		limits: map[string]string{}, visitedV: map[ssa.Value]bool{}, notes: map[string]bool{}, sums: map[*ssa.Function]*bsum{}}
+		limits: map[string]string{}, visitedV: map[ssa.Value]bool{}, notes: map[string]bool{}, sums: map[*ssa.Function]*bsum{},
+		fldLoads: map[fieldKey][]*ssa.UnOp{}, puse: map[puseKey]int{}, kres: map[funKey]*keptRes{}}
+	s.fv = newFuncVals(prog, cg)
 	s.errIface = types.Universe.Lookup("error").Type().Underlying().(*types.Interface)
 	for _, short := range []string{"pkg/sql/tokenizer", "pkg/sql/parser", "pkg/gosqlx"} {
 		if p := byPath[mod+"/"+short]; p != nil {
@@ -166,6 +173,29 @@ func errFlow(prog *ssa.Program, cg *callgraph.Graph, byPath map[string]*packages
 			fns = append(fns, fn)
 		}
 	}
+	// declared init functions (init#1 ...) are not package members: they are reached from the package initialiser
+	for sp := range s.scope {
+		if initf := sp.Func("init"); initf != nil {
+			var visit func(f *ssa.Function)
+			visit = func(f *ssa.Function) {
+				if len(f.Blocks) > 0 {
+					fns = append(fns, f)
+				}
+				for _, a := range f.AnonFuncs {
+					visit(a)
+				}
+			}
+			for _, b := range initf.Blocks {
+				for _, ins := range b.Instrs {
+					if c, ok := ins.(*ssa.Call); ok {
+						if f := c.Common().StaticCallee(); f != nil && f.Pkg == sp && strings.HasPrefix(f.Name(), "init#") {
+							visit(f)
+						}
+					}
+				}
+			}
+		}
+	}
 	sort.Slice(fns, func(i, j int) bool {
 		a, b := prog.Fset.Position(fns[i].Pos()), prog.Fset.Position(fns[j].Pos())
 		if a.Filename != b.Filename {
@@ -188,6 +218,12 @@ func errFlow(prog *ssa.Program, cg *callgraph.Graph, byPath map[string]*packages
 					for i, fv := range cf.FreeVars {
 						if i < len(x.Bindings) {
 							s.bind[fv] = x.Bindings[i]
+						}
+					}
+				case *ssa.UnOp:
+					if fa, ok := x.X.(*ssa.FieldAddr); ok && x.Op == token.MUL {
+						if nt, ok := deref(fa.X.Type()).(*types.Named); ok {
+							s.fldLoads[fieldKey{nt, fa.Field}] = append(s.fldLoads[fieldKey{nt, fa.Field}], x)
 						}
 					}
 				}
@@ -714,11 +750,44 @@ func (s *efState) dfsParam(p *ssa.Parameter, seen map[ssa.Value]bool, set map[*E
 			s.dfs(c.Args[idx], seen, set)
 		}
 	}
+	// calls through function values (only when the function is used as a value at all)
+	dynOpen := ""
+	if idx >= 0 && len(s.fv.uses[fn]) > 0 {
+		_, dyn, open := s.fv.callSites(fn)
+		dynOpen = open
+		for _, c := range dyn {
+			if _, isGo := c.(*ssa.Go); isGo {
+				continue
+			}
+			if a, ok := argFor(c, fn, idx); ok {
+				found = true
+				s.dfs(a, seen, set)
+			}
+		}
+	}
 	if _, inScope := s.scope[fn.Pkg]; inScope && fn.Parent() == nil && isExportedFn(fn) {
 		s.unknown(p, "caller-supplied", set)
-	} else if !found {
+	} else if !found || dynOpen != "" {
 		s.unknown(p, "param", set)
 	}
+}
+
+// dynTargets: the callees of a call through a function value, all of them functions whose error results the table
+// follows (functions of the module with a body, not the builders of pkg/errors); why != "" when the call stays unknown
+func (s *efState) dynTargets(call ssa.CallInstruction) (ts []*ssa.Function, why string) {
+	res := s.fv.callees(call)
+	if res.open != "" {
+		return nil, res.open
+	}
+	for _, t := range res.fns {
+		if !inModule(t) || len(t.Blocks) == 0 || t.Pkg == nil {
+			return nil, "callee outside the module: " + t.String()
+		}
+		if t.Pkg == s.errPkg {
+			return nil, "error builder called through a function value: " + t.String()
+		}
+	}
+	return res.fns, ""
 }
 
 func staticCallee(c *ssa.CallCommon) *ssa.Function {
@@ -753,23 +822,17 @@ func (s *efState) dfsCall(call *ssa.Call, resIdx int, seen map[ssa.Value]bool, s
 			}
 			return
 		}
-		// call through a local function value: resolve loads of a cell holding closures
-		if u, ok := c.Value.(*ssa.UnOp); ok && u.Op == token.MUL {
-			if al, ok := s.cell(u.X).(*ssa.Alloc); ok {
-				res := false
-				for _, sv := range s.cellStore[al] {
-					if mc, ok := sv.(*ssa.MakeClosure); ok {
-						set[s.funNode(mc.Fn.(*ssa.Function), resIdx)] = true
-						res = true
-					} else if f, ok := sv.(*ssa.Function); ok {
-						set[s.funNode(f, resIdx)] = true
-						res = true
-					}
-				}
-				if res {
-					return
-				}
+		// call through a function value: the functions it can evaluate to, when they can be enumerated
+		// (funcvals.go: dispatch tables in package-level maps / slices / structs, function-typed fields,
+		// closures in local / captured variables or handed on as parameters, method values)
+		if ts, why := s.dynTargets(call); why == "" {
+			for _, t := range ts {
+				set[s.funNode(t, resIdx)] = true
 			}
+			return
+		} else {
+			pos := s.prog.Fset.Position(call.Pos())
+			s.notes[fmt.Sprintf("call through a function value at %s:%d not resolved: %s", filepath.Base(pos.Filename), pos.Line, why)] = true
 		}
 		s.unknown(call, "dynamic-call", set)
 		return
@@ -1444,6 +1507,339 @@ func (s *efState) limitOf(call *ssa.Call) string {
 	return ""
 }
 
+// ---- is an error value used by what is returned?  is an ignored result kept somewhere else? ----------------------
+
+type puseKey struct {
+	fn       *ssa.Function
+	pi, ridx int
+}
+
+// callTargets: the functions of the module a call reaches (static callee, or the enumerated targets of a call through
+// a function value); nil when the callee is not followed
+func (s *efState) callTargets(call *ssa.Call) []*ssa.Function {
+	c := call.Common()
+	if c.IsInvoke() {
+		return nil
+	}
+	if f := staticCallee(c); f != nil {
+		if inModule(f) && len(f.Blocks) > 0 && f.Pkg != s.errPkg {
+			return []*ssa.Function{f}
+		}
+		return nil
+	}
+	if _, isB := c.Value.(*ssa.Builtin); isB {
+		return nil
+	}
+	ts, why := s.dynTargets(call)
+	if why != "" {
+		return nil
+	}
+	return ts
+}
+
+// valueUsed: does the error value ev go into the making of v (kept, or by its text)?  v is followed with the value
+// flow of the table; where v is the result of a call of a function of the module, ev counts as used when it is
+// (part of) an argument whose parameter goes into the making of that result (paramUsed): the same binding of
+// arguments to parameters the flow graph itself makes, but for this call site only.
+func (s *efState) valueUsed(v, ev ssa.Value, depth int) bool {
+	if v == nil || depth > 6 {
+		return false
+	}
+	seen := map[ssa.Value]bool{}
+	reach := map[*EFNode]bool{}
+	s.dfs(v, seen, reach)
+	if seen[ev] {
+		return true
+	}
+	for rn := range reach {
+		if rn.consumed[ev] {
+			return true
+		}
+	}
+	var vals []ssa.Value
+	for x := range seen {
+		vals = append(vals, x)
+	}
+	for _, x := range vals {
+		var call *ssa.Call
+		ridx := 0
+		switch y := x.(type) {
+		case *ssa.Call:
+			call = y
+		case *ssa.Extract:
+			call, _ = y.Tuple.(*ssa.Call)
+			ridx = y.Index
+		}
+		if call == nil {
+			continue
+		}
+		for _, t := range s.callTargets(call) {
+			for pi := range t.Params {
+				a, ok := argFor(call, t, pi)
+				if !ok || !s.argCarries(a, ev, depth) {
+					continue
+				}
+				if s.paramUsed(t, pi, ridx) {
+					return true
+				}
+			}
+		}
+	}
+	return false
+}
+
+// argCarries: the argument is the error value (or made from it), or a string made from its text
+func (s *efState) argCarries(a, ev ssa.Value, depth int) bool {
+	u := unwrapIface(a)
+	if u == ev || a == ev {
+		return true
+	}
+	if s.errorish(u.Type()) || s.isErrSlice(u.Type()) {
+		return s.valueUsed(a, ev, depth+1)
+	}
+	if b, ok := u.Type().Underlying().(*types.Basic); ok && b.Info()&types.IsString != 0 {
+		var es []ssa.Value
+		s.strErrs(u, map[ssa.Value]bool{}, &es)
+		for _, e := range es {
+			if e == ev || s.valueUsed(e, ev, depth+1) {
+				return true
+			}
+		}
+	}
+	return false
+}
+
+// paramUsed: parameter pi of fn goes into the making of (some value of) its result ridx
+func (s *efState) paramUsed(fn *ssa.Function, pi, ridx int) bool {
+	k := puseKey{fn, pi, ridx}
+	switch s.puse[k] {
+	case 1, 2:
+		return false
+	case 3:
+		return true
+	}
+	s.puse[k] = 1
+	res := false
+	if pi < len(fn.Params) {
+		for _, b := range fn.Blocks {
+			for _, ins := range b.Instrs {
+				if r, ok := ins.(*ssa.Return); ok && ridx < len(r.Results) && !res {
+					res = s.valueUsed(r.Results[ridx], fn.Params[pi], 1)
+				}
+			}
+		}
+	}
+	if res {
+		s.puse[k] = 3
+	} else {
+		s.puse[k] = 2
+	}
+	return res
+}
+
+type keptRes struct {
+	ok    bool
+	cells []fieldKey
+	fns   []*ssa.Function // the functions that do the keeping (the callee and the helpers it returns through)
+	busy  bool
+}
+
+// fieldOfStore: the (type, field) a store instruction writes, for fields of named struct types
+func fieldOfAddr(addr ssa.Value) (fieldKey, bool) {
+	if fa, ok := addr.(*ssa.FieldAddr); ok {
+		if nt, ok := deref(fa.X.Type()).(*types.Named); ok {
+			return fieldKey{nt, fa.Field}, true
+		}
+	}
+	return fieldKey{}, false
+}
+
+// keptResult: every error value result idx of fn can evaluate to is, when fn returns it, also held by a struct
+// field: the value returned is read from the field, or it is stored into the field on every path to the return
+// (a store that dominates the return, or that sits on the non-nil side of a test of the value that does), or it
+// is the result of a function for which the same holds.  Such a result is not lost when the caller ignores it,
+// provided the field is read where it matters (fieldReadTowardsAPI).
+func (s *efState) keptResult(fn *ssa.Function, idx int) *keptRes {
+	k := funKey{fn, idx}
+	if r, ok := s.kres[k]; ok {
+		if r.busy {
+			return &keptRes{}
+		}
+		return r
+	}
+	r := &keptRes{busy: true}
+	s.kres[k] = r
+	ok := len(fn.Blocks) > 0
+	nret := 0
+	for _, b := range fn.Blocks {
+		for _, ins := range b.Instrs {
+			ret, isRet := ins.(*ssa.Return)
+			if !isRet || idx >= len(ret.Results) || !ok {
+				continue
+			}
+			nret++
+			ok = s.keptValue(fn, ret.Results[idx], b, r, map[ssa.Value]bool{})
+		}
+	}
+	r.busy = false
+	r.ok = ok && nret > 0
+	r.fns = append(r.fns, fn)
+	return r
+}
+
+func (s *efState) keptValue(fn *ssa.Function, v ssa.Value, at *ssa.BasicBlock, r *keptRes, seen map[ssa.Value]bool) bool {
+	if seen[v] {
+		return true
+	}
+	seen[v] = true
+	switch x := v.(type) {
+	case *ssa.Const:
+		return x.IsNil()
+	case *ssa.Phi:
+		for i, e := range x.Edges {
+			if !s.keptValue(fn, e, x.Block().Preds[i], r, seen) {
+				return false
+			}
+		}
+		return true
+	case *ssa.ChangeInterface:
+		return s.keptValue(fn, x.X, at, r, seen)
+	case *ssa.UnOp:
+		if x.Op == token.MUL {
+			if fk, ok := fieldOfAddr(x.X); ok {
+				r.cells = append(r.cells, fk)
+				return true
+			}
+		}
+	}
+	// stored into a field on the way to the return
+	if refs := v.Referrers(); refs != nil {
+		for _, ref := range *refs {
+			st, ok := ref.(*ssa.Store)
+			if !ok || st.Val != v {
+				continue
+			}
+			fk, ok := fieldOfAddr(st.Addr)
+			if !ok {
+				continue
+			}
+			sb := st.Block()
+			if sb.Dominates(at) {
+				r.cells = append(r.cells, fk)
+				return true
+			}
+			// if v != nil { field = v } ... return v
+			if len(sb.Preds) == 1 {
+				p := sb.Preds[0]
+				if iff, ok := p.Instrs[len(p.Instrs)-1].(*ssa.If); ok && p.Dominates(at) {
+					if bo, ok := iff.Cond.(*ssa.BinOp); ok && (bo.X == v || bo.Y == v) {
+						other := bo.Y
+						if other == v {
+							other = bo.X
+						}
+						if c, ok := other.(*ssa.Const); ok && c.IsNil() &&
+							((bo.Op == token.NEQ && p.Succs[0] == sb) || (bo.Op == token.EQL && p.Succs[1] == sb)) {
+							r.cells = append(r.cells, fk)
+							return true
+						}
+					}
+				}
+			}
+		}
+	}
+	// the result of a function of the scope packages that keeps its own result
+	var call *ssa.Call
+	ridx := 0
+	switch y := v.(type) {
+	case *ssa.Call:
+		call = y
+	case *ssa.Extract:
+		call, _ = y.Tuple.(*ssa.Call)
+		ridx = y.Index
+	}
+	if call != nil {
+		if f := staticCallee(call.Common()); f != nil && !call.Common().IsInvoke() {
+			if _, in := s.scope[f.Pkg]; in {
+				sub := s.keptResult(f, ridx)
+				if sub.ok {
+					r.cells = append(r.cells, sub.cells...)
+					r.fns = append(r.fns, sub.fns...)
+					return true
+				}
+			}
+		}
+	}
+	return false
+}
+
+// fieldReadTowardsAPI: the field is read, outside the functions that keep the value in it, by an instruction
+// whose value goes into a node that can arrive at an entry point (so the kept value is not just parked)
+func (s *efState) fieldReadTowardsAPI(fk fieldKey, keepers []*ssa.Function) bool {
+	if s.feedsAPI == nil {
+		s.feedsAPI = map[*EFNode]bool{}
+		var work []*EFNode
+		for _, n := range s.nodes {
+			if n.API {
+				s.feedsAPI[n] = true
+				work = append(work, n)
+			}
+		}
+		for len(work) > 0 {
+			n := work[len(work)-1]
+			work = work[:len(work)-1]
+			for _, l := range [][]int{n.Inner, n.Dropped} {
+				for _, id := range l {
+					if id >= 1 && id <= len(s.nodes) {
+						if m := s.nodes[id-1]; !s.feedsAPI[m] {
+							s.feedsAPI[m] = true
+							work = append(work, m)
+						}
+					}
+				}
+			}
+		}
+	}
+	for _, ld := range s.fldLoads[fk] {
+		inKeeper := false
+		for _, f := range keepers {
+			if ld.Parent() == f {
+				inKeeper = true
+			}
+		}
+		if inKeeper || !s.visitedV[ld] {
+			continue
+		}
+		for n := range s.feedsAPI {
+			if n.consumed[ld] {
+				return true
+			}
+		}
+	}
+	return false
+}
+
+// resultKept: the error result of this call is held by a struct field that is read towards an entry point
+func (s *efState) resultKept(call *ssa.Call, eidx int) bool {
+	c := call.Common()
+	f := staticCallee(c)
+	if f == nil || c.IsInvoke() {
+		return false
+	}
+	if _, in := s.scope[f.Pkg]; !in {
+		return false
+	}
+	r := s.keptResult(f, eidx)
+	if !r.ok || len(r.cells) == 0 {
+		return false
+	}
+	for _, fk := range r.cells {
+		if !s.fieldReadTowardsAPI(fk, r.fns) {
+			return false
+		}
+	}
+	return true
+}
+
 // ---- replaced errors and swallowed errors ---------------------------------------------------------------
 
 func (s *efState) replaceAndSwallow(fns []*ssa.Function, out *EFOut) {
@@ -1532,8 +1928,23 @@ func (s *efState) replaceAndSwallow(fns []*ssa.Function, out *EFOut) {
 							Line: pos.Line, Callee: calleeName, Node: id, How: how})
 					}
 				}
+				// a result the caller does not propagate is not lost when the callee has also put it into a struct
+				// field that is read on the way to an entry point (the poll helper records the context error in
+				// the parser; ParseContext reports it from there)
+				keptState := 0
+				kept := func() bool {
+					if keptState == 0 {
+						keptState = 1
+						if s.resultKept(call, eidx) {
+							keptState = 2
+						}
+					}
+					return keptState == 2
+				}
 				if ev == nil || len(*ev.Referrers()) == 0 {
-					mk("unused")
+					if !kept() {
+						mk("unused")
+					}
 					continue
 				}
 				// branches on ev != nil / ev == nil
@@ -1601,32 +2012,23 @@ func (s *efState) replaceAndSwallow(fns []*ssa.Function, out *EFOut) {
 											continue
 										}
 										anyErr = true
-										seen := map[ssa.Value]bool{}
-										reach := map[*EFNode]bool{}
-										s.dfs(rv, seen, reach)
-										used := seen[ev]
-										for rn := range reach {
-											if rn.consumed[ev] {
-												used = true
-											}
-										}
-										if !used {
+										if !s.valueUsed(rv, ev, 0) {
 											hows["replaced"] = true
 										}
 									}
-									if !anyErr && !s.visitedV[ev] {
+									if !anyErr && !s.visitedV[ev] && !kept() {
 										hows["returns-nil"] = true
 									}
 								}
 							}
 						}
-						if nret == 0 && !s.visitedV[ev] {
+						if nret == 0 && !s.visitedV[ev] && !kept() {
 							hows["continues"] = true
 						}
 					}
 				}
 				_ = replaced
-				if !tested && !s.visitedV[ev] {
+				if !tested && !s.visitedV[ev] && !kept() {
 					hows["untested"] = true
 				}
 				var hl []string
